@@ -170,6 +170,10 @@ std::string catname()
 template <typename... Ts>
 inline constexpr bool any_tracked_v = (mc::is_tracked_v<Ts> || ...);
 
+struct Action {
+    int k, a, b;
+};
+
 // ---------------------------------------------------------------------------------------
 // lifetime registry -> C03
 // ---------------------------------------------------------------------------------------
@@ -186,6 +190,23 @@ inline void check_live(Cx& cx, std::string const& subject, std::string const& cl
         cx.fail("C03", subject, cat(cls, "/live-count"), cat(what, ": live tracked objects inside the owner: ", live, ", expected: ", expected));
     }
 }
+
+// counted comparison: every tetl-vs-reference comparison of a first execution is counted
+// (rebuilds of known prefixes run against the explorer's scratch reporter and are not)
+template <typename A, typename B>
+bool ceq(Cx& cx, std::string const& prop, std::string const& subject, std::string const& cls, char const* what, A const& got, B const& want)
+{
+    cx.r.count("comparisons");
+    return cx.eq(prop, subject, cls, what, got, want);
+}
+template <typename A, typename B>
+bool ceq(Cx& cx, std::string const& prop, std::string const& subject, std::string const& cls, std::string const& what, A const& got, B const& want)
+{
+    return ceq(cx, prop, subject, cls, what.c_str(), got, want);
+}
+
+/// distinct non-trivial case = (configuration, canonical from-state, action + argument, canonical partner state)
+inline void note_case(Cx& cx, std::string const& config, std::string const& from, Action const& a, std::string const& partner);
 
 // ---------------------------------------------------------------------------------------
 // Box: the implementation object lives in a poisoned buffer of its own (default-initialised
@@ -222,7 +243,23 @@ struct Box {
         std::memset(buf, poison, sizeof buf);
         v = ::new (static_cast<void*>(buf)) V(std::forward<A>(a)...);
     }
-    std::string bytes() const { return std::string(reinterpret_cast<char const*>(v), sizeof(V)); }
+    /// object representation with the padding bits cleared; only meaningful (and only used in state
+    /// keys) for a trivially copyable V.  Padding is indeterminate: a V copied bytewise through a stack
+    /// temporary, as etl::swap does, inherits stack garbage there.  For a V with non-trivial copy
+    /// operations the stale bytes of inactive members were observed to differ between compile
+    /// flavours, so such types are keyed by model + observation only.
+    static constexpr bool keyed_bytes = std::is_trivially_copyable_v<V>;
+    std::string bytes() const
+    {
+        if constexpr (keyed_bytes) {
+            alignas(V) unsigned char tmp[sizeof(V)];
+            std::memcpy(tmp, static_cast<void const*>(v), sizeof(V));
+            __builtin_clear_padding(reinterpret_cast<V*>(tmp));
+            return std::string(reinterpret_cast<char const*>(tmp), sizeof(V));
+        } else {
+            return std::string();
+        }
+    }
 };
 
 // run f(integral_constant<I>) for the run-time index i
@@ -234,9 +271,14 @@ void with_index(std::size_t i, F&& f)
     }(std::make_index_sequence<N>{});
 }
 
-struct Action {
-    int k, a, b;
-};
+inline void note_case(Cx& cx, std::string const& config, std::string const& from, Action const& a, std::string const& partner)
+{
+    auto h = mc::hash_str(config);
+    h      = mc::hash_mix(h, mc::hash_str(from));
+    h      = mc::hash_mix(h, std::uint64_t(a.k) * 1000003ULL + std::uint64_t(a.a + 16) * 1009ULL + std::uint64_t(a.b + 16));
+    h      = mc::hash_mix(h, mc::hash_str(partner));
+    cx.r.nontrivial(h);
+}
 
 template <typename Sys, typename... A>
 void explore(mc::Reporter& r, A... args)
